@@ -506,6 +506,27 @@ class Body:
             return n + rest
         return f"_{local}" + rest
 
+    def named_def_roots(self, name):
+        """Roots of every definition of the user variable `name` (for variables assigned in
+        several match arms, where `root` stops at the variable name)."""
+        out = []
+        for n, p in self.dbg:
+            if n != name or "|" in p:
+                continue
+            for d in self.defs.get(int(p), []):
+                if d[0] == "stmt":
+                    rv = d[4]
+                    if rv[0] == "use":
+                        out.append(self.root(rv[1]))
+                    elif rv[0] == "ref":
+                        out.append(self.place_root(rv[2]))
+                    else:
+                        out.append(rv[0])
+                elif d[0] == "call":
+                    c = d[2]
+                    out.append(f"{short_name(c.callee)}(" + ",".join(self.root(a) for a in c.args) + ")")
+        return out
+
     def describe(self):
         return f"{self.name} ({self.file}:{self.line})"
 
